@@ -69,6 +69,11 @@ pub struct Ghost {
     pub lent_hi: RawFd,
     pub lent_closed: bool,
     pub close_calls: usize,
+    // C10: acquisitions of std::sync::Mutex (counted by the Mutex::lock stub), acquisition count at the
+    // previous socket call, and whether a receive ran under another acquisition than the call before it
+    pub lock_acq: u32,
+    pub acq_prev: u32,
+    pub lock_retaken: bool,
     pub marker: u64,
 }
 pub static mut G: Ghost = Ghost {
@@ -104,6 +109,9 @@ pub static mut G: Ghost = Ghost {
     lent_hi: -1,
     lent_closed: false,
     close_calls: 0,
+    lock_acq: 0,
+    acq_prev: 0,
+    lock_retaken: false,
     marker: 0x6a05_7fd1_93c4_11e7,
 };
 
@@ -343,6 +351,34 @@ pub fn ghost_sendmsg<D: IntoIovec>(_fd: RawFd, out_data: &[D], out_fds: &[RawFd]
         G.tx_len += total;
         Ok(total)
     }
+}
+
+/// stub for std::sync::Mutex::lock (C10).  The lock being held AT each socket call is not enough: request and
+/// reply must lie in the SAME critical section.  The stub counts acquisitions and takes the lock with
+/// try_lock: a lock that is already held could never be granted to this - the only - thread, i.e. the call
+/// would deadlock on itself.
+pub fn ghost_mutex_lock<T: ?Sized>(m: &std::sync::Mutex<T>) -> std::sync::LockResult<std::sync::MutexGuard<'_, T>> {
+    // SAFETY: single-threaded harness
+    unsafe { G.lock_acq += 1 };
+    match m.try_lock() {
+        Ok(guard) => Ok(guard),
+        Err(std::sync::TryLockError::Poisoned(p)) => Err(p),
+        Err(std::sync::TryLockError::WouldBlock) => {
+            assert!(false, "C10: the call takes the endpoint lock while it already holds it (self-deadlock)");
+            kani::assume(false);
+            unreachable!()
+        }
+    }
+}
+/// C10 bookkeeping, called by the per-endpoint syscall stubs
+pub unsafe fn note_send() {
+    G.acq_prev = G.lock_acq;
+}
+pub unsafe fn note_recv() {
+    if G.acq_prev != 0 && G.acq_prev != G.lock_acq {
+        G.lock_retaken = true;
+    }
+    G.acq_prev = G.lock_acq;
 }
 
 /// stub for libc::close
